@@ -404,11 +404,32 @@ func checkC17(c *Ctx) {
 			c.Unresolved("R3", "message.Len")
 			return
 		}
-		// writer: stores to b[k] for constant k
+		// writer: stores to b[k] for constant k - in the sending function or in the encoder helper it calls
 		wr := map[int64]ssa.Value{}
 		var wbuf ssa.Value
 		var payloadLow int64 = -1
-		eachInstr(send, func(_ *ssa.BasicBlock, _ int, in ssa.Instruction) {
+		wfn := send
+		hasHdrStores := func(f *ssa.Function) bool {
+			found := false
+			eachInstr(f, func(_ *ssa.BasicBlock, _ int, in ssa.Instruction) {
+				if st, ok := in.(*ssa.Store); ok {
+					if ia, ok := st.Addr.(*ssa.IndexAddr); ok && isByteSliceVal(ia.X) {
+						if _, isC := constInt(ia.Index); isC {
+							found = true
+						}
+					}
+				}
+			})
+			return found
+		}
+		if !hasHdrStores(send) {
+			for _, g := range staticCalleesDeep(send, 1) {
+				if g.Pkg != nil && g.Pkg.Pkg.Path() == modPath+"/"+hrPkg && hasHdrStores(g) {
+					wfn = g
+				}
+			}
+		}
+		eachInstr(wfn, func(_ *ssa.BasicBlock, _ int, in ssa.Instruction) {
 			if st, ok := in.(*ssa.Store); ok {
 				if ia, ok := st.Addr.(*ssa.IndexAddr); ok && isByteSliceVal(ia.X) {
 					if k, isC := constInt(ia.Index); isC {
@@ -443,7 +464,7 @@ func checkC17(c *Ctx) {
 		}
 		// affine: Len (16 bits) -> b1,b2 -> reader expr
 		env := &bitsEnv{p: p, known: map[ssa.Value]bvec{}, table: func(*ssa.Global) ([]uint64, bool) { return nil, false }}
-		eachInstr(send, func(_ *ssa.BasicBlock, _ int, in ssa.Instruction) {
+		eachInstr(wfn, func(_ *ssa.BasicBlock, _ int, in ssa.Instruction) {
 			if u, ok := in.(*ssa.UnOp); ok && u.Op == token.MUL {
 				if f, _ := fieldAddr(u.X); f == lenF {
 					env.known[u] = bvInput(0, 16)
@@ -466,6 +487,27 @@ func checkC17(c *Ctx) {
 		env2 := &bitsEnv{p: p, known: map[ssa.Value]bvec{}, table: env.table}
 		var lenStore *ssa.Store
 		var typeIdx int64 = -1
+		// the decoder is the reading function or the helper it hands the bytes to
+		storesLen := func(f *ssa.Function) bool {
+			found := false
+			eachInstr(f, func(_ *ssa.BasicBlock, _ int, in ssa.Instruction) {
+				if st, ok := in.(*ssa.Store); ok {
+					if f, _ := fieldAddr(st.Addr); f == lenF {
+						found = true
+					}
+				}
+			})
+			return found
+		}
+		read := read
+		if !storesLen(read) {
+			for _, g := range staticCalleesDeep(read, 1) {
+				if g.Pkg == read.Pkg && g.Blocks != nil && storesLen(g) {
+					read = g
+					break
+				}
+			}
+		}
 		eachInstr(read, func(_ *ssa.BasicBlock, _ int, in ssa.Instruction) {
 			switch x := in.(type) {
 			case *ssa.UnOp:
@@ -535,6 +577,29 @@ func checkC17(c *Ctx) {
 			c.Undecided("R4", "bytes read", read.Pos(), "no ReadMsgUnix result")
 			return
 		}
+		// the frame may be decoded in a helper that is handed exactly the bytes read (b[:n]): the byte count is then the
+		// length of that parameter
+		nTerm := func() lterm { return bc.term(n) }
+		dfn := read
+		eachInstr(read, func(_ *ssa.BasicBlock, _ int, in ssa.Instruction) {
+			call, ok := in.(*ssa.Call)
+			if !ok || dfn != read {
+				return
+			}
+			g := calleeFn(call.Common())
+			if g == nil || g.Blocks == nil || g.Pkg == nil || g.Pkg != read.Pkg {
+				return
+			}
+			for i, a := range call.Call.Args {
+				if sl, ok := a.(*ssa.Slice); ok && sl.Low == nil && sl.High == n && isByteSliceVal(sl) && i < len(g.Params) {
+					prm := g.Params[i]
+					dfn = g
+					bc = newBoundsCtx(p, g)
+					nTerm = func() lterm { return bc.lenOf(prm) }
+				}
+			}
+		})
+		read := dfn
 		ns := 0
 		eachInstr(read, func(_ *ssa.BasicBlock, _ int, in ssa.Instruction) {
 			sl, ok := in.(*ssa.Slice)
@@ -565,7 +630,24 @@ func checkC17(c *Ctx) {
 			if sl.High != nil {
 				hi = bc.term(sl.High)
 			}
-			nt := bc.term(n)
+			// the payload may be cut from a sub-slice of the buffer (body := b[3:]): its end in the buffer is the
+			// sub-slice's constant start plus the high bound
+			for base := sl.X; ; {
+				bs, ok := base.(*ssa.Slice)
+				if !ok {
+					break
+				}
+				if bs.Low != nil {
+					k, isC := constInt(bs.Low)
+					if !isC {
+						hi = lterm{"?", 0}
+						break
+					}
+					hi.c += k
+				}
+				base = bs.X
+			}
+			nt := nTerm()
 			z := bc.zoneAt(sl.Block())
 			if z.entLE(hi, nt) {
 				c.OK("R4", "payload slice within the bytes read", sl.Pos(), "3+Len <= n entailed by the length guard")
@@ -587,7 +669,7 @@ func checkC17(c *Ctx) {
 				return
 			}
 			z := bc.zoneAt(ia.Block())
-			c.Check(z.entLT(lconst(k), bc.term(n)), "R4", fmt.Sprintf("header byte %d read only when present", k), ia.Pos(), "n > index entailed", "a header byte is read although fewer bytes arrived (stale buffer content is parsed as a header)")
+			c.Check(z.entLT(lconst(k), nTerm()), "R4", fmt.Sprintf("header byte %d read only when present", k), ia.Pos(), "n > index entailed", "a header byte is read although fewer bytes arrived (stale buffer content is parsed as a header)")
 		})
 	}()
 	c.Expect("R4", 5)
